@@ -294,7 +294,7 @@ class Interp:
             if 'val' in c:
                 try:
                     sc_ = getattr(self, 'scale_consts', None)
-                    if sc_ and c.get('uneval') and str(c['uneval']).startswith('datacake') and ty in ('usize', 'u32', 'u64') and int(c['val']) >= 8:
+                    if sc_ and c.get('uneval') and str(c['uneval']).startswith('datacake') and ty in ('usize', 'u32', 'u64') and int(c['val']) >= 3:
                         # LIMIT SCALING: a NAMED size limit of the workspace (a batch / chunk / page / request size) is small next to the
                         # collection the scenario shows — the shown three elements stand for "more than the limit, and not a multiple of it"
                         self.trace.append(('scaled-const', strip_generics(c['uneval']), int(c['val']), sc_))
